@@ -148,6 +148,51 @@ def check(rep, an, tier):
                 if l is not None and r is not None and l.unit is not None and r.unit is not None:
                     rep.check("R-QTY", "constraint compares like units", l.unit == r.unit or "POLY" in (l.unit, r.unit), where=F.where_po(po),
                               construct=norm_text(c.tag("node"))[:70], entry=entry, config=res.config)
+    # the secondary-objective fit: its error bound is a capture-unit tolerance compared with a residual NORM (not its square)
+    from . import C08
+    d8 = {n: C08.AXES[n][0][0] for n in C08.AXES}
+    for lab8 in ("l2", "var"):
+        res = C08.run(an, C08.OPTIONS[lab8][0](), dict(d8, K=None))
+        res.config = f"underdetermined, opt={lab8}"
+        entry = "lsq_linear_underdetermined"
+        F.qty(rep, res, entry, subs=("mismatch", "literal"))
+        tolerances(rep, res, entry)
+        for po, obj, cons in F.final_problems(res):
+            for c in cons:
+                l, r = c.tag("lhs"), c.tag("rhs")
+                if l is not None and r is not None and l.unit is not None and r.unit is not None:
+                    rep.check("R-QTY", "constraint compares like units", l.unit == r.unit or "POLY" in (l.unit, r.unit), where=F.where_po(po),
+                              construct=norm_text(c.tag("node"))[:70], entry=entry, config=res.config,
+                              msg=f"[{ustr(l.unit)}] is bounded by [{ustr(r.unit)}]: after a change of capture units the bound allows a different error")
+    # the capture matrix carries the intensity unit of the source spectra: no self-normalisation of the sources on any registration path
+    from . import domains as D
+    from .C19 import est_fields
+    from ..spec import U_SIGNAL, U_K
+    for given in (None, "array"):
+        fields = est_fields("array", None)
+        fields["K"] = arr("self.K", S("F"), U_K)
+        fields["baseline"] = arr("self.baseline", S("F"), U_CAPTURE, "BASE")
+        dom = "domain" if given else "self.domain"
+        src = D.on(arr("sources", S("SRC", "D@" + dom), U_SIGNAL), dom)
+        kw = dict(sources=src, domain=D.domain_val("domain") if given else none(), lb=arr("lb", S("SRC"), U_INT), ub=arr("ub", S("SRC"), U_INT),
+                  labels=none(), Epsilon=none())
+        res = an.run(f"{CC.EST}.register_system", kws=kw, self_fields=fields, spec=D.hooks(), config=f"register_system,domain={given}")
+        sq = [dv for dv in res.events("self_quotient") if "sources" in dv.d["origins"]]
+        for dv in sq:
+            rep.violated("R-QTY", "the capture matrix scales with the source spectra", where=dv.loc, construct=dv.text()[:80],
+                         entry="ReceptorEstimator.register_system", config=res.config,
+                         msg="the source spectra are divided by a functional of themselves before A is computed: A is invariant to the intensity "
+                             "unit of the spectra while the bounds are not, so membership, ranges and fits of the twin problem do not correspond")
+        if not sq:
+            rep.holds("R-QTY", "the capture matrix scales with the source spectra", where=res.fn.loc(), construct="sources → A", 
+                      entry="ReceptorEstimator.register_system", config=res.config)
+    # variance minimisation with a requested total: the window around the total is an INTENSITY tolerance
+    from . import C09
+    d9 = {n: C09.AXES[n][0][0] for n in C09.AXES}
+    res = C09.run(an, dict(d9, K=None, L1="array"))
+    res.config = "minimize, L1 given"
+    F.qty(rep, res, "lsq_linear_minimize", subs=("mismatch", "literal"))
+    tolerances(rep, res, "lsq_linear_minimize")
     rep.require("R-QTY", 80)
     rep.advisory("solver tolerances are absolute and live outside the source: C15 is asserted for the well-scaled regime only")
 
